@@ -155,6 +155,45 @@ def knownNonFs : List String :=
     breaks this obligation. -/
 theorem ext_callees_classified : extCallees.all (fun c => knownNonFs.contains c) = true := by decide
 
+/-- every character array with static storage duration in the files of the file efuns, the editor, the lexer and the
+    saved-binary code, with the reason why it cannot carry a PATH across a master apply (where a re-entrant master —
+    valid_read / valid_write calling file efuns themselves — could overwrite it; seeded change C15-5 made
+    `read_file`'s path copy static and `check_valid_path` re-read it after the apply).  Keyed by (file, function,
+    name): sizes may change freely; a NEW static array is not on the list and breaks `static_bufs_classified`. -/
+def staticBufWhy : List (String × String × String × String) := [
+  ("lib/efuns/ed.c", "", "inlin", "the editor's current input line; ed commands come from user input, never from inside a master apply"),
+  ("lib/efuns/ed.c", "", "last_term", "indentation state of the editor (no path)"),
+  ("lib/efuns/ed.c", "docmd", "rhs", "substitution text of the `s` command (no path)"),
+  ("lib/efuns/ed.c", "doread", "str", "line buffer for the file being read (content, not a path)"),
+  ("lib/efuns/ed.c", "getfn", "file",
+     "the editor's file name: filled, checked (check_valid_path) and returned by getfn only; its callers use it " ++
+     "before any further apply; getfn is not re-entered from a master apply (ed commands are dispatched from user " ++
+     "input); the approved path is copied back over it (ed_getfn_exact)"),
+  ("lib/efuns/ed.c", "indent", "f", "format string (no path)"),
+  ("lib/efuns/ed.c", "indent", "g", "format string (no path)"),
+  ("lib/efuns/ed.c", "indent_code", "s", "indentation stack (no path)"),
+  ("lib/efuns/file_utils.c", "check_valid_path", "current_dir", "the constant \".\" returned for the mudlib root"),
+  ("lib/lpc/lex.c", "", "lex_ctype", "character class table"),
+  ("lib/lpc/lex.c", "", "yytext", "current token text"),
+  ("lib/lpc/lex.c", "handle_include", "buf",
+     "path buffer of #include: filled by inc_open and opened there; the compiler makes no valid_read / valid_write " ++
+     "consultation, and a nested compile cannot start between the fill and the open"),
+  ("lib/lpc/lex.c", "query_opcode_name", "buf", "opcode name (no path)"),
+  ("lib/lpc/lex.c", "show_error_context", "buf", "source excerpt (no path)"),
+  ("lib/lpc/lex.c", "yylex", "partial", "text block terminator (no path)"),
+  ("lib/lpc/lex.c", "yylex", "terminator", "text block terminator (no path)"),
+  ("lib/lpc/object.c", "save_object", "tmp_name",
+     "temporary file name: written AFTER check_valid_path returned, no apply until its last use (rename / unlink)"),
+  ("lib/lpc/preprocess.c", "", "_optab", "operator table"),
+  ("lib/lpc/preprocess.c", "", "optab2", "operator table"),
+  ("lib/lpc/program/binaries.c", "", "simul_efun_path", "configured SimulEfunFile (administrator's configuration)")]
+
+/-- **no path in static storage across the master apply** (translator obligation; fails closed on a new static
+    character array in these files) -/
+theorem static_bufs_classified :
+    staticBufs.all (fun b => staticBufWhy.any (fun k => k.1 == b.1 && k.2.1 == b.2.1 && k.2.2.1 == b.2.2.1)) = true := by
+  decide
+
 /-- the searched callee names include the less usual ways to reach a file -/
 theorem fs_callees_cover :
     (["open", "open64", "openat", "openat2", "creat", "fopen", "fopen64", "freopen", "stat", "lstat", "statx", "fstatat",
